@@ -11,7 +11,8 @@ type Type struct {
 	Rows   int
 	Name   string
 	Fields []Field
-	Bits   int // scalar width when not 32 (8 for char/uchar)
+	Bits   int  // scalar width when not 32 (8 for char/uchar)
+	Packed bool // MSL packed_ vector: size N*4, alignment of the component
 }
 
 type Field struct {
@@ -68,6 +69,9 @@ func builtinType(s string) *Type {
 		return tDef
 	}
 	if len(s) > 7 && s[:7] == "packed_" {
+		if t := builtinType(s[7:]); t != nil && t.K == 'V' {
+			return &Type{K: 'V', Elem: t.Elem, N: t.N, Packed: true}
+		}
 		s = s[7:]
 	}
 	n := len(s)
@@ -132,10 +136,11 @@ type fn struct {
 }
 
 type global struct {
-	name  string
-	t     *Type
-	init  *node
-	class string // "buffer" (GLSL buffer / uniform block member), "" otherwise
+	name   string
+	t      *Type
+	init   *node
+	class  string // "buffer" (storage block member), "uniform" (cbuffer / uniform block member), "shared", "" otherwise
+	std140 bool   // GLSL block declared layout(std140)
 }
 
 type Program struct {
@@ -150,11 +155,13 @@ type Program struct {
 	sawDefaultConstructible bool
 	Dups                    []string // redefinitions found while parsing (same function signature, struct or global name twice)
 	globals                 []*global
+	blocks                  []*global // GLSL interface blocks without an instance name
 	// dispatch parameters (set before Run): the invocation executed is local id (0,0,0) of
 	// workgroup WorkgroupID; workgroup memory initially holds Garbage (cyclically)
 	WorkgroupID   [3]uint32
 	WorkgroupSize [3]uint32
 	Garbage       []uint32
+	Uniform       []uint32 // byte image (as words) of the first uniform buffer
 	garbageAt     int
 	// run-time state
 	genv    map[string]*Val
@@ -266,7 +273,12 @@ func (p *Program) qualifiers() []string {
 		}
 		if t.k == 'i' && t.s == "layout" {
 			p.next()
-			p.skipGroup("(", ")")
+			for p.peek().k != 0 && !(p.peek().k == 'p' && p.peek().s == ")") {
+				if q := p.next(); q.k == 'i' && (q.s == "std140" || q.s == "std430") {
+					qs = append(qs, q.s)
+				}
+			}
+			p.next()
 			continue
 		}
 		return qs
@@ -405,6 +417,18 @@ func (p *Program) topLevel() {
 	if p.isI("typedef") {
 		p.next()
 		p.qualifiers()
+		if p.isI("struct") && p.peekAt(1).k == 'p' && p.peekAt(1).s == "{" { // typedef struct { ... } name;
+			p.next()
+			st := p.structBody("")
+			name := p.next()
+			st.Name = name.s
+			if _, dup := p.structs[name.s]; dup {
+				p.Dups = append(p.Dups, "struct "+name.s+" is defined twice")
+			}
+			p.structs[name.s] = st
+			p.expect(";")
+			return
+		}
 		t := p.parseType()
 		name := p.next()
 		t = p.arraySuffix(t)
@@ -447,7 +471,7 @@ func (p *Program) topLevel() {
 		}
 		st := p.structBody("")
 		for _, f := range st.Fields {
-			p.globals = append(p.globals, &global{name: f.Name, t: f.T, class: "buffer"})
+			p.globals = append(p.globals, &global{name: f.Name, t: f.T, class: "uniform"})
 		}
 		return
 	}
@@ -459,14 +483,17 @@ func (p *Program) topLevel() {
 	if (has(qs, "buffer") || has(qs, "uniform")) && p.peek().k == 'i' && p.peekAt(1).k == 'p' && p.peekAt(1).s == "{" {
 		bname := p.next()
 		st := p.structBody(bname.s)
+		class := "buffer"
+		if !has(qs, "buffer") {
+			class = "uniform"
+		}
 		if p.peek().k == 'i' {
 			inst := p.next()
 			t := p.arraySuffix(st)
-			p.globals = append(p.globals, &global{name: inst.s, t: t, class: "buffer"})
+			p.globals = append(p.globals, &global{name: inst.s, t: t, class: class, std140: has(qs, "std140")})
 		} else {
-			for _, f := range st.Fields {
-				p.globals = append(p.globals, &global{name: f.Name, t: f.T, class: "buffer"})
-			}
+			// members of an instance-less block are laid out as one struct
+			p.blocks = append(p.blocks, &global{name: bname.s, t: st, class: class, std140: has(qs, "std140")})
 		}
 		p.expect(";")
 		return
